@@ -906,6 +906,21 @@ func (c *Corpus) Shrinks(seed []byte, maxOff int) (out [][]byte) {
 					}
 				}
 			}
+			// the region loses its last 1..4 bytes (an element that ends one byte before an optional trailing field)
+			for k := 1; k <= 4 && v-k > 3; k++ {
+				b := append([]byte{}, seed[:end-k]...)
+				b = append(b, seed[end:]...)
+				if width == 2 {
+					binary.BigEndian.PutUint16(b[off:], uint16(v-k))
+				} else {
+					b[off] = byte(v - k)
+				}
+				h := vlib.HashBytes(b)
+				if !seen[h] {
+					seen[h] = true
+					out = append(out, b)
+				}
+			}
 		}
 	}
 	return
